@@ -26,11 +26,16 @@ NEIGHBOURS = [{"from": "C04", "limit": 1500, "why": "inherited postconditions as
               {"from": "C13", "limit": 400, "why": "postconditions of async callables are awaited and judged"},
               {"from": "C11", "limit": 400, "why": "after an exception postconditions gate the following calls again"},
               {"from": "C07", "limit": 400, "why": "a violated postcondition raises the violation error whatever its message needs to re-evaluate"},
-              {"from": "C16", "tags": ["seq"], "limit": 500, "why": "a postcondition is judged on the values of the call at hand, whatever earlier calls supplied"}]
+              {"from": "C16", "tags": ["seq"], "limit": 500, "why": "a postcondition is judged on the values of the call at hand, whatever earlier calls supplied"},
+              {"from": "C17", "limit": 600, "why": "a postcondition added to a subclass member after its class exists gates that member only"}]
 
 
 def cases(tier, rng):
     thorough = tier == "thorough"
+    for c in directed.falsy_and_truthy_values_cases():
+        yield "directed-falsy-and-truthy-values", c
+    for c in directed.special_results_cases():
+        yield "directed-special-results", c
     for c in directed.used_before_override_cases():
         yield "directed-used-before-override", c
     for c in genck.exhaustive_post(genck.KINDS, [False, True], 3, 3 if thorough else 2):
